@@ -5,7 +5,8 @@
    Implementation.clear_ / new_ / run_ / chain_ and of everything they call; a reset call dropped from
    the code drops out of the table and the theorems below stop being provable. *)
 From Coq Require Import ZArith List Bool String.
-From PCB Require Import lib.Result lib.PyInt lib.ClearTable gen.Gen_clear model.ClearChain proofs.ClearChain_reset proofs.ClearChain_closed proofs.ClearChain_proofs.
+From PCB Require Import lib.Result lib.PyInt lib.ClearTable gen.Gen_clear model.ClearChain proofs.ClearChain_reset proofs.ClearChain_closed proofs.ClearChain_proofs
+  proofs.ClearChain_ext.
 Import ListNotations.
 Open Scope Z_scope.
 
@@ -54,23 +55,75 @@ Theorem C23_gather_commons : forall dt kind decls r, gather dt kind decls [] = O
 Proof. exact gather_commons_spec. Qed.
 Print Assumptions C23_gather_commons.
 
+(* wf s: the invariant of the two variable dictionaries of a session - distinct names, no array dimension that
+   is negative or below the OPTION BASE.  It holds initially and is kept by Scalars.set and Arrays.allocate
+   (the bottom of LET / DIM) and by the four commands, so it is no restriction on reachable states. *)
+Theorem C23_wf_invariant :
+  (forall t k c p, wf (init_state t k c p))
+  /\ (forall n v s s', wf s -> scalars_set n v s = Done s' -> wf s')
+  /\ (forall n d b s s', wf s -> arrays_restore n d b s = Done s' -> wf s')
+  /\ (forall s', is_reset s' -> wf s')
+  /\ (forall a s s', cmd_chain a s = Done s' -> wf s').
+Proof.
+  split; [exact wf_init|]. split; [exact wf_scalars_set|]. split; [exact wf_arrays_restore|].
+  split; [exact is_reset_wf | exact wf_chain].
+Qed.
+Print Assumptions C23_wf_invariant.
+
 (* After a successful CHAIN [MERGE] file[,line][,ALL][,DELETE range] exactly the COMMON scalars (all with ALL)
    exist, with identical values: numbers byte for byte, strings by content (read through the rebuilt
-   string space).  dims_ok / NoDup are invariants of the dictionaries of a real session. *)
-Theorem C23_chain_exact_scalars : forall a s s', cmd_chain a s = Done s' ->
-  NoDup (map fst (sc_vars s)) -> NoDup (map fst (ar_dims s)) -> dims_ok s ->
+   string space) - wherever the string lived: string space, program literal, FIELD buffer. *)
+Theorem C23_chain_exact_scalars : forall a s s', cmd_chain a s = Done s' -> wf s ->
   exists commons, gather (deftype s) 0 (c_decls a) [] = Ok commons /\
     forall n, scalar_value s' n = if c_all a || nmem n commons then scalar_value s n else None.
-Proof. exact chain_scalars_exact. Qed.
+Proof. intros a s s' H (W1 & W2 & _ & W4). exact (chain_scalars_exact a s s' H W1 W2 W4). Qed.
 Print Assumptions C23_chain_exact_scalars.
 
 (* ... and exactly the COMMON arrays, with their dimensions and contents (string elements by content) *)
-Theorem C23_chain_exact_arrays : forall a s s', cmd_chain a s = Done s' ->
-  NoDup (map fst (sc_vars s)) -> NoDup (map fst (ar_dims s)) -> dims_ok s ->
+Theorem C23_chain_exact_arrays : forall a s s', cmd_chain a s = Done s' -> wf s ->
   exists commons, gather (deftype s) 1 (c_decls a) [] = Ok commons /\
     forall n, array_value s' n = if c_all a || nmem n commons then array_value s n else None.
-Proof. exact chain_arrays_exact. Qed.
+Proof. intros a s s' H (W1 & W2 & _ & W4). exact (chain_arrays_exact a s s' H W1 W2 W4). Qed.
 Print Assumptions C23_chain_exact_arrays.
+
+(* explicit case: a COMMON string variable attached to a FIELD buffer (or still a literal in program code) -
+   a pointer below the variable area - arrives detached, with the content it had at the CHAIN *)
+Theorem C23_chain_field_string : forall a s s' n l lo hi b commons, cmd_chain a s = Done s' -> wf s ->
+  gather (deftype s) 0 (c_decls a) [] = Ok commons -> c_all a || nmem n commons = true ->
+  is_str_scalar n = true -> alookup n (sc_vars s) = Some [l; lo; hi] ->
+  l <> 0 -> lo + 256 * hi < var_start s -> plookup (lo + 256 * hi) l (foreign s) = Some b ->
+  scalar_value s' n = Some (Ok b).
+Proof. exact chain_field_string. Qed.
+Print Assumptions C23_chain_field_string.
+
+(* OPTION BASE over CHAIN (GW-BASIC: passed on with the COMMON variables): it is kept when a COMMON
+   declaration exists or ALL is given, cleared otherwise *)
+Theorem C23_chain_option_base : forall a s s', cmd_chain a s = Done s' ->
+  let kept := c_all a || (nonempty (c_cs_order a) || nonempty (c_ca_order a)) in
+  (kept = false -> ar_base s' = None /\ ar_base_by_dim s' = false)
+  /\ (kept = true -> forall b, ar_base s = Some b -> ar_base s' = Some b /\ ar_base_by_dim s' = ar_base_by_dim s).
+Proof. exact chain_base. Qed.
+Print Assumptions C23_chain_option_base.
+
+(* CHAIN MERGE ...,DELETE a-b whose last line does not exist: Illegal function call before anything is touched;
+   CHAIN ...,line to a line missing from the resulting program never succeeds (Illegal function call after
+   the program was replaced and everything cleared).  For every other combination of MERGE / line / DELETE /
+   ALL the theorems above and below apply as they are: the arguments are universally quantified, the
+   resulting program (its size) is an input from the real loader. *)
+Theorem C23_chain_bad_delete_range : forall a s, c_delete a = true -> c_to_line_missing a = true ->
+  cmd_chain a s = Raised err_IFC s.
+Proof. exact chain_bad_delete_range. Qed.
+Print Assumptions C23_chain_bad_delete_range.
+
+Theorem C23_chain_missing_line : forall a s j, c_jumpnum a = Some j -> c_jump_missing a = true ->
+  match cmd_chain a s with
+  | Done _ => False
+  | Raised e s' => e <> err_IFC \/ s' = s \/ s' = RecordSet.set m_allow_collect (fun _ => true) s \/
+       (sc_vars s' = [] /\ ar_dims s' = [] /\ m_prog_size s' = c_new_prog_size a /\ m_allow_collect s' = true)
+  | _ => True
+  end.
+Proof. exact chain_missing_line. Qed.
+Print Assumptions C23_chain_missing_line.
 
 (* ... and everything else is cleared: stacks, error trap, ERR / ERL, DATA pointer, RND seed, event traps;
    DEFtype survives only with MERGE, DEF FN only with ALL (GW-BASIC's documented exceptions); the new
@@ -105,6 +158,23 @@ Theorem C23_chain_gc_on : forall a s s', out_state (cmd_chain a s) = Some s' ->
 Proof. exact chain_gc_on. Qed.
 Print Assumptions C23_chain_gc_on.
 
+(* ... exactly: once the memory check of preserve_commons has passed the restore loop cannot run out of memory
+   (Scalars.set / Arrays.allocate take exactly the sizes that were added up), so CHAIN never ends half-restored *)
+Theorem C23_chain_oom_exact : forall a s s', cmd_chain a s = Raised err_OUT_OF_MEMORY s' -> wf s ->
+  s' = RecordSet.set m_allow_collect (fun _ => true) s
+  \/ (sc_vars s' = [] /\ ar_dims s' = [] /\ ar_bufs s' = [] /\ ss_strs s' = []
+      /\ m_prog_size s' = c_new_prog_size a /\ run_mode s' = true /\ m_allow_collect s' = true).
+Proof. exact chain_oom_exact. Qed.
+Print Assumptions C23_chain_oom_exact.
+
+(* DEF SEG is kept by CLEAR, NEW and RUN (and by CHAIN: C23_chain_rest_cleared), as the code has it *)
+Theorem C23_def_seg_kept : forall s,
+  (forall i m k s', cmd_clear i m k s = Done s' -> def_seg s' = def_seg s)
+  /\ (forall s', cmd_new s = Done s' -> def_seg s' = def_seg s)
+  /\ (forall j jm f s', cmd_run j jm f s = Done s' -> def_seg s' = def_seg s).
+Proof. exact reset_keeps_def_seg. Qed.
+Print Assumptions C23_def_seg_kept.
+
 (* non-vacuity: a state with a subroutine / loop nest, an error trap, variables of every kind; CLEAR resets it,
    CHAIN with COMMON B$, N%() keeps exactly these two *)
 Definition ex_state : state :=
@@ -123,11 +193,33 @@ Example C23_nonvacuous :
   /\ (exists s', cmd_chain ex_chain ex_state = Done s'
         /\ scalar_value s' [66; 36] = Some (Ok [97; 98; 99]) /\ scalar_value s' [67; 36] = None
         /\ scalar_value s' [65; 33] = None /\ array_value s' [78; 37] = Some ([1], Ok [[7; 0; 9; 0]]))
-  /\ NoDup (map fst (sc_vars ex_state)) /\ NoDup (map fst (ar_dims ex_state)) /\ dims_ok ex_state.
+  /\ wf ex_state.
 Proof.
   split; [eexists; split; [vm_compute; reflexivity | split; [discriminate | reflexivity]]|].
   split; [eexists; split; [vm_compute; reflexivity | repeat split; vm_compute; reflexivity]|].
   split; [repeat constructor; cbn; intuition discriminate|].
   split; [repeat constructor; cbn; intuition discriminate|].
-  intros n d b [H|[]] Hb. injection H as <- <-. injection Hb as <-. repeat constructor. vm_compute. discriminate.
+  split.
+  - intros n d [H|[]]. injection H as <- <-. repeat constructor. vm_compute. discriminate.
+  - intros n d b [H|[]] Hb. injection H as <- <-. injection Hb as <-. repeat constructor. vm_compute. discriminate.
+Qed.
+
+(* non-vacuity of the FIELD case: F$ (COMMON) is attached to a FIELD buffer at address 3951, 5 bytes *)
+Definition ex_field_state : state :=
+  mkState 65534 512 4717 200 true
+    [([70; 36], [5; 111; 15])] [[70; 36]] 7 [] [] [] 0 None false
+    [] 65020 [((3951, 5), [104; 101; 108; 108; 111])] (repeat 33 26) []
+    [] [] [] None false false 0 0 None 0 true false 5228370 [] [] [] false [1] false 5037.
+Example C23_field_nonvacuous :
+  wf ex_field_state /\ scalar_value ex_field_state [70; 36] = Some (Ok [104; 101; 108; 108; 111])
+  /\ exists s', cmd_chain (mkChain false false None false false false false false 50 [([70; 36], 0)] [[70; 36]] [])
+                  ex_field_state = Done s'
+       /\ scalar_value s' [70; 36] = Some (Ok [104; 101; 108; 108; 111])
+       /\ alookup [70; 36] (sc_vars s') = Some [5; 248; 253].
+Proof.
+  split.
+  { split; [repeat constructor; cbn; intuition discriminate|].
+    split; [constructor|]. split; [intros n d []|]. intros n d b []. }
+  split; [vm_compute; reflexivity|].
+  eexists. split; [vm_compute; reflexivity|]. split; vm_compute; reflexivity.
 Qed.
